@@ -608,7 +608,7 @@ func runC12MaxJobs(c *Ctx) {
 		n = 40000
 	}
 	reported := 0
-	budget := 25 * time.Second
+	budget := 15 * time.Second
 	if c.Thorough {
 		budget = 240 * time.Second
 	}
